@@ -1568,6 +1568,11 @@ def wild_datetimes(rng):
            dtm.datetime(1970, 1, 1, 0, 30, 0, tzinfo=dtm.timezone(dtm.timedelta(hours=-1))),
            time.struct_time((1969, 12, 31, 23, 59, 59, 0, 1, 0)), time.struct_time((2200, 1, 1, 0, 0, 0, 0, 1, 0)),
            time.gmtime(0), time.gmtime(2 ** 32 - 1), time.gmtime(2 ** 32)]
+    # the last second before the epoch with a sub-second part (its whole second, 23:59:59, has no encoding), and just after
+    for us in (1, 250000, 999999):
+        out += [dtm.datetime(1969, 12, 31, 23, 59, 59, us, tzinfo=U), dtm.datetime(1969, 12, 31, 23, 59, 59, us),
+                dtm.datetime(1970, 1, 1, 0, 59, 59, us, tzinfo=dtm.timezone(dtm.timedelta(hours=1))),
+                dtm.datetime(1969, 12, 31, 23, 59, 58, us, tzinfo=U), dtm.datetime(1970, 1, 1, 0, 0, 0, us, tzinfo=U)]
     for _ in range(40):
         out.append(gen.rand_datetime_in_range(rng))
     for _ in range(20):
